@@ -69,6 +69,7 @@ CosterOf(v) == CASE conf.coster = "const2" -> 2
                  [] OTHER -> 0
 ShouldUpdate(p, n) == CASE conf.validator = "always" -> TRUE
                         [] conf.validator = "sum5" -> (p + n) % 5 # 0
+                        [] conf.validator = "asym3" -> (p + 2 * n) % 5 # 0
                         [] conf.validator = "veto_odd_next" -> ~(p % 2 = 1 /\ n = p + 1)
                         [] OTHER -> FALSE
 
